@@ -154,3 +154,32 @@ Example c06_strict :
   /\ tokenize (doc [120]) <> tokenize (doc [32])                                (* stray text shows, white space does not *)
   /\ tokenize (doc [10; 32]) = tokenize (doc []).
 Proof. vm_compute. repeat split; congruence. Qed.
+
+(* END TO END (Proofs/E2E*.v).  `hview W e json h` is what a renderer sees after
+   the history h of public-API calls (Model/Table.v: building calls in any
+   interleaving plus column property settings) over ARBITRARY items
+   (Model/Cell.v); `twf_hist h`: the building calls form a well-formed history
+   (Spec/History.v).  hist_header / hist_rows / hist_records / hist_ncols are
+   read off the history alone (Spec/TableHist.v); documented_text is C01's
+   text form (Spec/CellText.v). *)
+From Tab Require Import Model.Cell Model.Table Spec.TableHist Spec.CellText Proofs.E2EProofs.
+From Tab Require Import Proofs.E2EHtml.
+
+(* The skeleton theorem for every table a history can build: the tokens are
+   the skeleton over the DOCUMENTED TEXTS of the history's items (header,
+   then every row, separators dropped by the skeleton), the wrapper's id,
+   class and caption, and the generator's results. *)
+Theorem c06_history : forall W e json id cls cap have rcs (h : list top),
+  twf_hist h ->
+  let x := mkHtmlIn id cls cap have rcs (hview W e json h) in
+  rc_fit x -> spec_nul_free (hist_html_spec e id cls cap have rcs h) ->
+  exists out, html_render x = Ok out /\ tokenize out = Some (skeleton (hist_html_spec e id cls cap have rcs h)).
+Proof. exact html_history. Qed.
+Print Assumptions c06_history.
+
+Theorem c06_history_calls : forall W e json id cls cap have rcs (h : list top),
+  twf_hist h ->
+  let x := mkHtmlIn id cls cap have rcs (hview W e json h) in
+  rc_fit x -> html_rc_calls x = Ok (expected_calls (hist_html_spec e id cls cap have rcs h)).
+Proof. exact html_history_calls. Qed.
+Print Assumptions c06_history_calls.
